@@ -103,7 +103,7 @@ def main():
         nm = os.path.basename(f)[:-6]
         items.append((nm, f, {"kind": "benign", "expect": [],
                               "note": "refactoring written by a sub-agent (selftest/refactors/README%s_%s.md)" % (
-                                  "2" if nm.startswith("ref2_") else "3" if nm.startswith("ref3_") else "4" if nm.startswith("ref4_") else "",
+                                  nm[3] if nm[3:4].isdigit() else "",
                                   nm.split("_")[1])}))
     if a.seeded:
         items = []
